@@ -1,0 +1,47 @@
+//go:build verif
+
+// Contracts checked by /verif/gowp. This file contains comments only and is compiled only
+// with -tags verif.
+
+package xrd
+
+// C11 (admission of XRDs): an XRD is admitted only if both CRDs it stands for could be derived -
+// the composite CRD always, the claim CRD whenever the XRD offers a claim - so what the
+// derivation refuses (for instance claim names that collide with the composite's) is refused
+// at admission too; a derivation error is never dropped on the way.
+
+//@ func xrd.getAllCRDsForXRD
+//@ props C11
+//@ ghost derivedAll bool = true
+//@ ghost claimDerived bool = false
+//@ requires in != nil
+//@ site xcrd.ForCompositeResource($x)
+//@   assert [C11:composite-crd-derived-from-the-admitted-xrd] $x == in
+//@   update derivedAll = derivedAll && err == nil
+//@ optional site xcrd.ForCompositeResourceClaim($x)
+//@   assert [C11:claim-crd-derived-from-the-admitted-xrd] $x == in
+//@   update derivedAll = derivedAll && err == nil
+//@   update claimDerived = err == nil
+//@ ensures [C11:a-crd-that-cannot-be-derived-is-an-error] err == nil ==> derivedAll
+//@ ensures [C11:claim-crd-derived-whenever-a-claim-is-offered] (err == nil && in.Spec.ClaimNames != nil) ==> claimDerived
+
+//@ func (*xrd.validator).ValidateCreate
+//@ props C11
+// the admission decoder hands over decoded objects, never typed nil pointers
+//@ requires typeis(obj, *v1.CompositeResourceDefinition) ==> as(obj, *v1.CompositeResourceDefinition) != nil
+//@ ghost deriveFailed bool = false
+//@ optional site xrd.getAllCRDsForXRD($x)
+//@   assert [C11:crds-derived-from-the-created-xrd] $x == in
+//@   update deriveFailed = err != nil
+//@ ensures [C11:create-refused-when-a-crd-cannot-be-derived] deriveFailed ==> err != nil
+
+//@ func (*xrd.validator).ValidateUpdate
+//@ props C11
+// the admission decoder hands over decoded objects, never typed nil pointers
+//@ requires typeis(oldObj, *v1.CompositeResourceDefinition) ==> as(oldObj, *v1.CompositeResourceDefinition) != nil
+//@ requires typeis(newObj, *v1.CompositeResourceDefinition) ==> as(newObj, *v1.CompositeResourceDefinition) != nil
+//@ ghost deriveFailed bool = false
+//@ optional site xrd.getAllCRDsForXRD($x)
+//@   assert [C11:crds-derived-from-the-new-xrd] $x == newXRD
+//@   update deriveFailed = err != nil
+//@ ensures [C11:update-refused-when-a-crd-cannot-be-derived] deriveFailed ==> err != nil
